@@ -545,7 +545,8 @@ PROPS["C18"] = dict(
          "consumed fatal error nested >= 2 deep, or > 32 calls; or a real delay sample with c >= 1 and non-zero delay; distinct by script shape"
          " A quarter of the base errors are NON-fatal errors whose Unwrap chain contains a fatal error (plain errors for the loop; returned unchanged when wrapped by FatalError).",
     stages=[corr_stage("C18K1", 6000, 6000, feature=feat_c18, seeds=3),
-            corr_stage("C18F", 30, 60, params=None, feature=feat_c18)],
+            corr_stage("C18F", 30, 60, params=None, feature=feat_c18),
+            corr_stage("C18ERRS", 3000, 20000, validate=False)],
 )
 
 
